@@ -65,6 +65,7 @@ ldb_reader_init(ldb_reader_t *lr,
   lr->eof = 0;
   lr->last_offset = 0;
   lr->end_offset = 0;
+  lr->last_end_offset = 0;
   lr->initial_offset = initial_offset;
   lr->resyncing = (initial_offset > 0);
 }
@@ -316,6 +317,7 @@ ldb_reader_read_record(ldb_reader_t *lr,
         *record = fragment;
 
         lr->last_offset = prospective_offset;
+        lr->last_end_offset = lr->end_offset - lr->buffer.size;
 
         return 1;
       }
@@ -362,6 +364,7 @@ ldb_reader_read_record(ldb_reader_t *lr,
           *record = *scratch;
 
           lr->last_offset = prospective_offset;
+          lr->last_end_offset = lr->end_offset - lr->buffer.size;
 
           return 1;
         }
